@@ -36,6 +36,9 @@ struct Result {
     bool skipped = false;        // precondition of the harness not met
     bool guardsOk = true;        // guard bytes around caller buffers intact
     bool leftoverOnError = false;  // (linked polygon) blocks live after error
+    // reference copy only (default allocator binding, code under #ifndef H3_ALLOC_PREFIX included): blocks still
+    // allocated when the call (and, for a linked polygon, its destroy) returned, and frees of unknown pointers
+    int64_t refLive = 0, refBadFrees = 0;
     // write-trap on const inputs (constmem.h): stores the library made to its const inputs during the call
     int constStores = 0;           // all trapped stores
     int constChanged = 0;          // ... that changed the stored bytes
